@@ -276,3 +276,166 @@ def pipeline(rep, tier):
         require(rep, out == "PT" and log2 == [("swu", "U"), ("iso", "X", "Y", "Z")], "map_to_curve_%s = iso_map(simplified SWU(u))" % g, None, rp)
     rep.note("clear_cofactor_* and the subgroup claim are C17's obligations; hash_to_field / expand_message_xmd are C15's")
     rep.trust("cofactor clearing lands in the prime-order subgroup (group orders; C17)")
+
+
+# ---------------------------------------------------------------------------
+# simplified SWU for G2 over an abstract F_p-algebra with i^2 = -1 (tower of formal roots)
+
+def _emb(R, i_root, fq2):
+    c0, c1 = (int(c) for c in fq2.coeffs)
+    return R.const(c0) + R.const(c1) * i_root
+
+
+def _g2_consts(R):
+    cst = mod("py_ecc.optimized_bls12_381.constants")
+    i_ = R.add_root("i", R.const(-1))
+    A, B, Z = _emb(R, i_, cst.ISO_3_A), _emb(R, i_, cst.ISO_3_B), _emb(R, i_, cst.ISO_3_Z)
+    etas = [_emb(R, i_, e) for e in cst.ETAS]
+    roots = tuple(_emb(R, i_, e) for e in cst.POSITIVE_EIGHTH_ROOTS_OF_UNITY)
+    return i_, A, B, Z, etas, roots
+
+
+def _sqrt_division_fq2_contract(rep):
+    """the real sqrt_division_FQ2(u, v) on two generic elements u, v of an F_p-algebra with i^2 = -1, for each of the 8
+    possible values zeta = w^j of (u v^15)^((p^2-1)/8):  j even -> (True, y) with y^2 v = u;  j odd -> (False, gamma) with gamma^2 v = u zeta."""
+    swu = mod(SWU)
+    cst = mod("py_ecc.optimized_bls12_381.constants")
+    bc = mod("py_ecc.bls.constants")
+    p = _p()
+    rp = {"kind": "c10_map", "args": {"group": "G2"}}
+    omega = bc.EIGHTH_ROOTS_OF_UNITY[1]
+    for j in range(8):
+        zeta = omega ** j
+
+        def fn(R, zeta=zeta):
+            i_, A, B, Z, etas, roots = _g2_consts(R)
+            u, v = R.atom("u"), R.atom("v")
+            z_el = _emb(R, i_, zeta)
+
+            def pow_hook(base, e):
+                if e == cst.P_MINUS_9_DIV_16:
+                    s = R.add_root("rt", base * z_el)      # s^2 = (u v^15) zeta
+                    return s * base._inverse()
+                return None
+            R.pow_hook = pow_hook
+            with world.patched(swu, FQ2=Res, POSITIVE_EIGHTH_ROOTS_OF_UNITY=roots):
+                ok, res = swu.sqrt_division_FQ2(u, v)
+            return u, v, z_el, ok, res
+        for pth, R in ring.run_paths(fn, lambda: Ring(p, policy=lambda live: "generic", inv0=False)):
+            rep.paths += 1
+            if pth.kind != "ret":
+                rep.fail("sqrt_division_FQ2 raised %r (zeta = w^%d)" % (pth.value, j), rp)
+                continue
+            u, v, z_el, ok, res = pth.value
+            if j % 2 == 0:
+                require(rep, ok is True and R.prove_equal(res * res * v, u) == "zero", "sqrt_division_FQ2 (zeta = w^%d, u/v square): returns (True, y) with y^2 v = u" % j, None, rp)
+            else:
+                require(rep, ok is False and R.prove_equal(res * res * v, u * z_el) == "zero",
+                        "sqrt_division_FQ2 (zeta = w^%d, u/v non-square): returns (False, gamma) with gamma^2 v = u zeta" % j, None, rp)
+
+
+def _swu_g2_case(rep, j, t_kind, seen):
+    """sqrt_division_FQ2 replaced by its contract (proved in _sqrt_division_fq2_contract)."""
+    swu = mod(SWU)
+    cst = mod("py_ecc.optimized_bls12_381.constants")
+    bc = mod("py_ecc.bls.constants")
+    o = mod(OPT)
+    p = _p()
+    rp = {"kind": "c10_map", "args": {"group": "G2"}}
+    omega = bc.EIGHTH_ROOTS_OF_UNITY[1]
+    zeta = omega ** j
+
+    def fn(R):
+        i_, A, B, Z, etas, roots = _g2_consts(R)
+        z_el = _emb(R, i_, zeta) if j % 2 else R.const(1)
+        if t_kind == "generic":
+            t = R.atom("t")
+        else:
+            w = -(o.FQ2.one() / cst.ISO_3_Z)            # exceptional input: Z t^2 = -1
+            t = R.add_root("tau", _emb(R, i_, w))
+        st = {"sgn": []}
+
+        def sqrt_div(u, v):
+            u, v = R.lift(u), R.lift(v)
+            if not (ring._is_one(u.den) and ring._is_one(v.den)):
+                raise core.Unsupported("u, v with denominators")
+            s = R.add_root("rt", u * v * z_el)             # s^2 = u v zeta  =>  (s/v)^2 v = u zeta
+            return (j % 2 == 0, s * v._inverse())
+
+        def sgn0(x):
+            b = SymZ.var(core.cur().fresh_name("sgn"), 0, 1)
+            st["sgn"].append((x, b))
+            return b
+        R.sgn0_hook = sgn0
+        with world.patched(swu, FQ2=Res, ISO_3_A=A, ISO_3_B=B, ISO_3_Z=Z, ETAS=etas, sqrt_division_FQ2=sqrt_div):
+            N, Y, D = swu.optimized_swu_G2(t)
+        return t, (A, B, Z), N, Y, D, st
+
+    for pth, R in ring.run_paths(fn, lambda: Ring(p, policy=lambda live: "generic", inv0=False)):
+        rep.paths += 1
+        path = lits_summary(R)
+        tag = "SWU G2 (%s t, zeta = w^%d: g(x1) %s)" % (t_kind, j, "square" if j % 2 == 0 else "non-square")
+        if pth.kind != "ret":
+            rep.fail("%s raised %r" % (tag, pth.value), rp, detail=str(path)[-300:])
+            continue
+        t, (A, B, Z), N, Y, D, st = pth.value
+        seen.add((t_kind, j))
+        require(rep, R.prove_equal(Y * Y * D, N * N * N + A * N * D * D + B * D * D * D), tag + ": output lies on E2': y^2 = x^3 + A'x + B'", None, rp)
+        zt2 = Z * t * t
+        tv = zt2 * zt2 + zt2
+        exceptional = R.prove_zero(tv) == "zero"
+        x1 = B * (Z * A)._inverse() if exceptional else (-B) * A._inverse() * (R.const(1) + tv._inverse())
+        want = x1 if j % 2 == 0 else zt2 * x1
+        require(rep, R.prove_equal(N, want * D), tag + ": x = %s%s" % ("x1" if j % 2 == 0 else "Z t^2 x1", " (exceptional x1 = B/(Z A))" if exceptional else ""), None, rp)
+        sg = st["sgn"]
+        ok = len(sg) == 2 and R.prove_equal(sg[0][0], t) == "zero"
+        if ok:
+            ycand = sg[1][0]
+            d1, _ = pth.ctx.prove(sg[0][1].t != sg[1][1].t)
+            d2, _ = pth.ctx.prove(sg[0][1].t == sg[1][1].t)
+            if d1 == "unsat":
+                ok = R.prove_equal(Y, -(ycand * D)) == "zero"
+            elif d2 == "unsat":
+                ok = R.prove_equal(Y, ycand * D) == "zero"
+            else:
+                ok = False
+        require(rep, ok, tag + ": sgn0 is taken of t and of the root; y is negated exactly when they differ (sgn0(y_out) = sgn0(t))", path[-1:], rp)
+
+
+@obligation("C10", "swu_G2_all_field_elements", timeout=900,
+            bound="every t in F_p^2 as a generic element of an F_p-algebra with i^2 = -1, each of the 8 possible values of (u v^15)^((p^2-1)/8), plus the exceptional inputs Z t^2 = -1 (formal root) and t = 0 (ground)")
+def swu_g2(rep, tier):
+    swu = mod(SWU)
+    o = mod(OPT)
+    cst = mod("py_ecc.optimized_bls12_381.constants")
+    bc = mod("py_ecc.bls.constants")
+    p = _p()
+    rep.encoded(swu.optimized_swu_G2, swu.sqrt_division_FQ2)
+    rep.stub("(u v^15)^((p^2-9)/16) -> s / (u v^15) with s^2 = u v^15 zeta, zeta an 8th root of unity (Fermat in F_p^2; trusted); sgn0 -> uninterpreted bit per element")
+    rp = {"kind": "c10_map", "args": {"group": "G2"}}
+    omega = bc.EIGHTH_ROOTS_OF_UNITY[1]
+    require(rep, omega ** 8 == o.FQ2.one() and omega ** 4 != o.FQ2.one(), "ground: w is a primitive 8th root of unity of F_p^2", None, rp)
+    seen = set()
+    _sqrt_division_fq2_contract(rep)
+    rep.stub("inside optimized_swu_G2: sqrt_division_FQ2(u, v) -> its contract (proved above on generic u, v)")
+    for j in range(8):
+        _swu_g2_case(rep, j, "generic", seen)
+    # exceptional input: only the square case is reachable (RFC 9380 H.1 criterion 4 for Z)
+    x1e = cst.ISO_3_B / (cst.ISO_3_Z * cst.ISO_3_A)
+    gx1e = x1e ** 3 + cst.ISO_3_A * x1e + cst.ISO_3_B
+    require(rep, gx1e ** ((p * p - 1) // 2) == o.FQ2.one(), "ground: g(B/(Z A)) is a square in F_p^2 (criterion 4 for Z = -(2+i))", None, rp)
+    for j in (0, 2, 4, 6):
+        _swu_g2_case(rep, j, "exceptional", seen)
+    require(rep, len(seen) == 12, "SWU G2: all 8 + 4 cases returned (%d)" % len(seen), None, rp)
+    from .replays import rfc_sswu_g2
+    bad = []
+    for t in ((0, 0), (1, 0), (0, 1), (0, 3), (p - 1, 0), (5, 7), ((p - 1) // 2, (p + 1) // 2), (0, p - 1)):
+        try:
+            N, Y, D = swu.optimized_swu_G2(o.FQ2(list(t)))
+            x, y = N / D, Y / D
+            got = (tuple(int(c) for c in x.coeffs), tuple(int(c) for c in y.coeffs))
+        except Exception as e:
+            got = repr(e)
+        if got != rfc_sswu_g2(t):
+            bad.append(t)
+    require(rep, not bad, "ground: optimized_swu_G2 equals the RFC 9380 straight-line map at t = 0, 1, i, 3i, -1, 5+7i, ... %s" % bad, None, rp)
